@@ -44,10 +44,17 @@ func runC15(p *Prog, r *Report) {
 			checkStrconv(p, sub, fn)
 			checkWindowPrefix(p, sub, fn)
 		}
+		nWindow := 0
 		for _, o := range sub.Obs {
+			if o.Rule == "C18.R7" {
+				nWindow++
+			}
 			o2 := *o
 			o2.Rule = "C15.R6"
 			r.Obs = append(r.Obs, &o2)
+		}
+		if nWindow == 0 {
+			r.Viol("C15.R6", "rate window/prefix-fold", "-", "the window of --rate is the written duration: the count-less form gets exactly the count 1 in front (fold over the first byte)", "the window is not read through the folded prefix idiom (a unit table or another conversion is not modelled)")
 		}
 	}
 	r.Min("C15.R1", 2)
